@@ -271,7 +271,28 @@ func (s *Server) sendPlain(c net.Conn, body []byte) {
 	s.nextID += 4
 	id := s.nextID + 1
 	s.res.Steps++
+	step := s.res.Steps
 	s.mu.Unlock()
+	// replies that cannot be read at all: Target raw1 / raw2 / raw3 (the answer to the 1st / 2nd / 3rd request)
+	if f := s.fault(fmt.Sprintf("raw%d", step)); f != nil {
+		switch f.Kind {
+		case "unknown_ctor":
+			body = cat(U32(0xdeadbeef), body[4:])
+		case "truncated":
+			body = body[:len(body)-8]
+		case "empty":
+			body = nil
+		case "err404":
+			// the 4-byte transport error frame real servers send: int32 -404
+			s.logf("send-err", U32(0xfffffe6c), 0, "")
+			s.sendFrame(c, U32(0xfffffe6c))
+			return
+		case "close":
+			s.logf("close", nil, 0, "")
+			c.Close()
+			return
+		}
+	}
 	pkt := make([]byte, 20, 20+len(body))
 	binary.LittleEndian.PutUint64(pkt[8:], uint64(id))
 	binary.LittleEndian.PutUint32(pkt[16:], uint32(len(body)))
@@ -286,7 +307,7 @@ func (s *Server) handle(c net.Conn, pkt []byte) {
 		return
 	}
 	if binary.LittleEndian.Uint64(pkt[:8]) != 0 {
-		s.handleEncrypted(pkt)
+		s.handleEncrypted(c, pkt)
 		return
 	}
 	if len(pkt) < 20 {
@@ -300,6 +321,11 @@ func (s *Server) handle(c net.Conn, pkt []byte) {
 		return
 	}
 	body := pkt[20:]
+	if len(body) >= 4 && binary.LittleEndian.Uint32(body) == 0x7abe77ec {
+		// a ping sent in the clear: the harness's probe request after an abandoned key exchange
+		s.logf("recv-plain-post", body, id, "")
+		return
+	}
 	s.logf("recv-plain", body, id, "")
 	if id&3 != 0 {
 		s.reject("client msg_id not divisible by 4")
@@ -487,6 +513,8 @@ func Corrupt(f *Fault, v, other []byte) []byte {
 		}
 	case "other":
 		out = append([]byte(nil), other...)
+	case "set":
+		out = append([]byte(nil), f.Rand...)
 	}
 	return out
 }
@@ -508,6 +536,12 @@ func (s *Server) altBody(name string, nonce, srvNonce, newNonce, auxHash []byte)
 			return sha(cat(newNonce))[4:20]
 		}
 		return sha(cat(newNonce, []byte{tag}, auxHash))[4:20]
+	}
+	// "<ctor>+hashN": the constructor carrying the hash that belongs to another answer
+	if i := bytes.IndexByte([]byte(name), '+'); i >= 0 {
+		tag := name[len(name)-1] - '0'
+		crc := map[string]uint32{"dh_gen_ok": CrcDHGenOk, "dh_gen_retry": CrcDHGenRetry, "dh_gen_fail": CrcDHGenFail}[name[:i]]
+		return cat(U32(crc), nonce, srvNonce, h(tag))
 	}
 	switch name {
 	case "server_DH_params_fail":
@@ -830,10 +864,17 @@ func kdf(authKey, msgKey []byte, x int) (key, iv []byte) {
 	return cat(a[0:8], b[8:20], c[4:16]), cat(a[8:20], b[0:8], c[16:20], d[0:8])
 }
 
-func (s *Server) handleEncrypted(pkt []byte) {
+func (s *Server) handleEncrypted(c net.Conn, pkt []byte) {
 	s.logf("recv-enc", pkt, 0, "")
 	s.mu.Lock()
-	defer func() { s.cond.Broadcast(); s.mu.Unlock() }()
+	defer func() {
+		ok, first := s.res.EncOpened, s.res.EncSeen == 1
+		s.cond.Broadcast()
+		s.mu.Unlock()
+		if ok && first {
+			s.answerPing(c)
+		}
+	}()
 	s.res.EncSeen++
 	if s.res.EncSeen > 1 {
 		return
@@ -872,4 +913,26 @@ func (s *Server) handleEncrypted(pkt []byte) {
 		return
 	}
 	s.res.EncOpened = true
+}
+
+// answerPing: the first encrypted request of the harness is ping#7abe77ec ping_id:long; the answer is
+// rpc_result#f35c6d01 req_msg_id:long result:pong#347773c5 msg_id:long ping_id:long, sealed server -> client (x = 8).
+func (s *Server) answerPing(c net.Conn) {
+	s.mu.Lock()
+	body, reqID, sid, salt, key, kid := s.res.EncBody, s.res.EncMsgID, s.res.EncSID, s.res.Salt, s.res.AuthKey, s.res.KeyID
+	s.nextID += 4
+	id := s.nextID + 1
+	s.mu.Unlock()
+	if len(body) != 12 || binary.LittleEndian.Uint32(body) != 0x7abe77ec {
+		return
+	}
+	res := cat(U32(0xf35c6d01), U64(uint64(reqID)), U32(CrcPong), U64(uint64(reqID)), body[4:12])
+	plain := cat(salt, sid, U64(uint64(id)), U32(1), U32(uint32(len(res))), res)
+	msgKey := sha(plain)[4:20]
+	for len(plain)%16 != 0 {
+		plain = append(plain, 0x5c)
+	}
+	k, iv := kdf(key, msgKey, 8)
+	s.logf("send-enc", res, id, "")
+	s.sendFrame(c, cat(kid, msgKey, igeEnc(k, iv, plain)))
 }
